@@ -20,7 +20,14 @@ Dates of every written form are part of it as well: `DATE=AUX` in the header, `;
 each journal reported with or without --aux-date; per posting, the date a reader recovers (xml:
 the posting's <date> if present else the transaction's, and <aux-date> likewise, compared with the
 register run without and with --aux-date; csv: the date column; emacs: the transaction's time value)
-must be the register's %(date) for the same query."""
+must be the register's %(date) for the same query.
+The note column of the csv output is judged against the note text of the journal itself (the
+register's plain %(note); a line break written as the two characters \\n), never against ledger's
+own join().  One journal in four comes from a second stream whose fields (and commodity symbols) also
+hold control bytes, non-letter code points or bytes outside UTF-8: outside the property's quantifier,
+compared with the model only.  Options that act after the calculation are part of the command space:
+--display PREDICATE (all commands; the xml report must list the displayed postings only) and
+--group-by payee (emacs: still one balanced, readable output)."""
 import csv, io, os, re
 import xml.etree.ElementTree as ET
 from fractions import Fraction as F
@@ -30,12 +37,13 @@ META = dict(
     id='C18',
     level='proof',
     technique='Coq proof (decode . encode = id for the emacs, csv and xml escaping functions against reader specifications; token/parenthesis structure of the emacs writer; element structure of the xml writer) + differential correspondence of the extracted writers against ledger + python csv/xml.etree/S-expression oracles',
-    level_text='Theorems in coq/Properties/Properties_C18.v state for ALL byte strings that the Emacs-Lisp reader recovers every string escape_string writes, that the whole emacs output lexes to the expected balanced token list and reads back as the tree (file line (hi lo 0) code payee (line account amount state [cost] [note])...); that XML character-data decoding inverts boost\'s entity encoding, the encoded text has no raw < and no & outside the six references, and a tag scanner finds in what the modelled property-tree writer prints exactly the elements of the tree, properly nested (for the transactions, accounts and commodities sections ledger builds, whatever the journal texts are); that an RFC 4180 reader recovers every row written with quoted_rfc; that the DEFAULT csv format (regenerated from report.h on every run) is recovered by the backslash-escape reader for ALL field contents (quoted() escapes both the double quote and the backslash), and by the RFC 4180 reader when no field holds a double quote or a backslash (the RFC reader is refuted by witnesses for each of the two characters - a statement about that reader; the property asks for one conventional reader). Payee overrides (`; Payee: X` tags) are modelled as the code resolves them (post_t::payee(): the stored payee, else the inherited tag, else the header); how the payee is stored is a fact regenerated from textual.cc on every run (Gen/PayeeRule.v: fixed when the posting line is read, or also updated by a Payee tag on a later note line), which selects the model rule and the statement of xml_payee_faithful: with the later-line update the payee an xml reader recovers (posting <payee> else transaction <payee>) is proved equal to the register payee for every posting whose later Payee tags carry a value; with the payee fixed at the posting line that holds only without later-line tags or without a stored payee and is refuted by a witness (finding F116). Dates are modelled as post_t::date() resolves them (the own date or auxiliary date of the posting, else that of the transaction, under either --aux-date setting): the xml tree is proved to carry _date under <date> and _date_aux under <aux-date> for transactions and postings (xml_date_elements), the dates a reader recovers from them are proved to be those of the register without and with --aux-date (xml_dates_faithful), the csv date cell is post_t::date(), and the emacs time value, one per transaction, equals it only for postings without dates of their own (refuted by witness, finding F150). The csv payee cell is proved to be post_t::payee(); the emacs payee, one per transaction, equals it only when no tag is present (refuted by witness, finding F115). The model is tied to the code by comparing, byte for byte, ledger\'s csv (default and generated formats), emacs and xml (transactions, account tree, commodities) output with the extracted model on generated journals, and its reader specifications are cross-checked against python csv, expat and an S-expression reader on ledger\'s real output.',
+    level_text='Theorems in coq/Properties/Properties_C18.v state for ALL byte strings that the Emacs-Lisp reader recovers every string escape_string writes, that the whole emacs output lexes to the expected balanced token list and reads back as the tree (file line (hi lo 0) code payee (line account amount state [cost] [note])...); that XML character-data decoding inverts boost\'s entity encoding, the encoded text has no raw < and no & outside the six references, and a tag scanner finds in what the modelled property-tree writer prints exactly the elements of the tree, properly nested (for the transactions, accounts and commodities sections ledger builds, whatever the journal texts are); that an RFC 4180 reader recovers every row written with quoted_rfc; that the DEFAULT csv format (regenerated from report.h on every run) is recovered by the backslash-escape reader for ALL field contents (quoted() escapes both the double quote and the backslash), and by the RFC 4180 reader when no field holds a double quote or a backslash (the RFC reader is refuted by witnesses for each of the two characters - a statement about that reader; the property asks for one conventional reader). Payee overrides (`; Payee: X` tags) are modelled as the code resolves them (post_t::payee(): the stored payee, else the inherited tag, else the header); how the payee is stored is a fact regenerated from textual.cc on every run (Gen/PayeeRule.v: fixed when the posting line is read, or also updated by a Payee tag on a later note line), which selects the model rule and the statement of xml_payee_faithful: with the later-line update the payee an xml reader recovers (posting <payee> else transaction <payee>) is proved equal to the register payee for every posting whose later Payee tags carry a value; with the payee fixed at the posting line that holds only without later-line tags or without a stored payee and is refuted by a witness (finding F116). Dates are modelled as post_t::date() resolves them (the own date or auxiliary date of the posting, else that of the transaction, under either --aux-date setting): the xml tree is proved to carry _date under <date> and _date_aux under <aux-date> for transactions and postings (xml_date_elements), the dates a reader recovers from them are proved to be those of the register without and with --aux-date (xml_dates_faithful), the csv date cell is post_t::date(), and the emacs time value, one per transaction, equals it only for postings without dates of their own (refuted by witness, finding F150). The note cell of the csv row goes through join(): the chain of tests of report_t::fn_join on its plain `char` loop variable is regenerated from report.cc on every run (Gen/JoinRule.v) and evaluated by the model on the SIGNED value of the byte; join_keeps_bytes proves for all byte strings that every byte other than the line feed - bytes >= 0x80 and control bytes included - is copied, join_one_line that the result holds no line feed, join_unjoin that a reader of the two characters backslash n recovers a note of several lines without backslash, csv_note_cell_faithful that the note cell of the default row is the posting\'s note followed by the transaction\'s whenever that is one line. The csv payee cell is proved to be post_t::payee(); the emacs payee, one per transaction, equals it only when no tag is present (refuted by witness, finding F115). The model is tied to the code by comparing, byte for byte, ledger\'s csv (default and generated formats), emacs and xml (transactions, account tree, commodities) output with the extracted model on generated journals, and its reader specifications are cross-checked against python csv, expat and an S-expression reader on ledger\'s real output.',
     level_note='Trusted: Coq kernel; extraction + OCaml driver and this harness for the correspondence. boost::property_tree\'s XML writer and entity encoder are modelled (Model/Escape.v write_el, xml_encode) and validated by the correspondence, not verified. Amount texts (quantity, commodity, annotated amount) are taken from the register report, as the property text does. The running <total>, <account-amount>, <account-total> subtrees and the id/ref addresses of the xml output are not compared.',
     design_ref='DESIGN.md section 7 C18, section 9 F10 (repaired by /repo 3212d62)',
     assumptions=['the reports run without --effective/--date overrides other than --aux-date; dates lie between 1901/01/01 and 9999/12/31 (boost gregorian) in %Y/%m/%d form', 'free-text fields survive journal parsing unchanged (see EXCLUSIONS in harness/props/c18.py): no tab/newline inside a field, no double space, a payee does not start with `(` unless a code precedes it nor with `*`/`!` on an uncleared transaction, a code has no `)`, an account name is not wrapped in ()/[]/<>, has no empty `:` component and does not start with `;` `*` `!`, a free-text note has no token starting or ending with `:` and no `[` before a digit or `=` (date override); metadata is generated in dedicated note lines (`Key: value`, `:tag:tag:`, `Payee: X`) with string values only (no `Key:: expr`), and no bare `:Payee:` tag',
                  'quoted commodity symbols contain no double quote and no backslash (commodity scanner escapes)',
-                 'control characters (outside the property\'s quantifier) are not generated: boost writes them raw, which is not well-formed XML 1.0'],
+                 'control bytes, non-letter code points (C1 controls, no-break space, line separator, BOM ...) and bytes outside UTF-8 lie outside the property\'s quantifier: a second generator stream puts them into every field and into commodity symbols and compares ledger with the model byte for byte, without an oracle verdict (boost writes them raw, which is not well-formed XML 1.0); NUL, tab, newline, VT, FF, CR are never inside a field (the line reader ends or trims there)',
+                 'report options: --aux-date, an account query, --display PREDICATE (every command), --group-by payee (emacs; the writer across groups is judged by the oracle only, finding F1802)'],
 )
 
 EXCLUSIONS = {
@@ -52,6 +60,31 @@ SPECIAL = list('"\\<>&,;\'')
 ASCII_WORDS = ['a', 'b', 'Q', 'xy', 'Shop', 'Food', 'rent', 'Cash', 'Z9', 'n']
 SCRIPTS = ['é', 'ü', 'ß', 'ç', 'ñ', 'Ω', 'λ', 'Д', 'ж', 'я', '日', '本', '語', 'א', 'ש', 'ع', 'ب', '한', '글', 'क', 'ก', '𝒜', '€', '£']
 STATE_PREFIX = {0: '', 1: '* ', 2: '! '}
+# the second stream (beyond the property's quantifier, correspondence only): every byte value a field can hold
+# C0 control bytes and DEL (not NUL, which ends the line; not \t \n \v \f \r, which the line reader
+# treats as white space; not \x1e \x1f, which separate the register fields of this harness)
+CTL = [chr(c) for c in list(range(1, 9)) + list(range(14, 30)) + [127]]
+# valid UTF-8 that is not a letter: C1 controls, no-break space, soft hyphen, zero-width space, line
+# separator, BOM, the replacement character, the last code point
+NONLETTER = ['\x80', '\x85', '\x9f', '\xa0', '\xad', '\u200b', '\u2028', '\ufeff', '\ufffd', '\U0010ffff']
+# lone bytes >= 0x80 that are NOT valid UTF-8 (continuation bytes, lead bytes without continuation,
+# a latin-1 letter, 0xfe/0xff), written into python strings as surrogate escapes
+RAW = [chr(0xdc00 + b) for b in (0x80, 0x8f, 0xa0, 0xbf, 0xc0, 0xc3, 0xe9, 0xf8, 0xfe, 0xff)]
+TEXT_MODE = ['letters']        # 'letters' | 'ctl' (CTL + NONLETTER) | 'raw' (CTL + RAW)
+
+
+def byte_pool():
+    return CTL + (NONLETTER if TEXT_MODE[0] == 'ctl' else RAW)
+
+
+def in_quantifier(t):
+    """printable characters only (the property's quantifier): no control character, no format or
+    separator character other than the blank, no byte outside UTF-8"""
+    return all(c == ' ' or c.isprintable() for c in t)
+
+
+def u8(t):
+    return t.encode('utf-8', 'surrogateescape')
 SEP = '\x1f'
 ROWEND = '\x1e'
 
@@ -68,10 +101,17 @@ COMMS = [
     ('"<"', True, False, 'P'),
     (None, False, False, ''),
 ]
+# quoted symbols of the second stream: control bytes / non-letters, and bytes outside UTF-8
+COMMS_CTL = [('"\x01é\x7f"', False, True, 'S'), ('"\x85 \x1b"', True, True, 'PS')]
+COMMS_RAW = [('\udcff\x02', True, False, 'P'), ('z\udce9\udc80', False, True, 'S')]       # (ledger prints these without quotes)
 
 
 # ------------------------------------------------------------------------------ field texts
 def word(rng):
+    if TEXT_MODE[0] != 'letters' and rng.random() < 0.3:
+        b = rng.choice(byte_pool())
+        w = rng.choice(ASCII_WORDS + SCRIPTS[:6])
+        return rng.choice([b + w, w + b, w + b + b + w, b, w[:1] + b + w[1:]])
     r = rng.random()
     if r < 0.45:
         return rng.choice(ASCII_WORDS)
@@ -84,6 +124,8 @@ def gen_text(rng):
     """a field text: a special character at the start / at the end / doubled / alone / inside a
     word, or a random mixture"""
     c = rng.choice(SPECIAL) if rng.random() < 0.75 else rng.choice(PUNCT)
+    if TEXT_MODE[0] != 'letters' and rng.random() < 0.55:
+        c = rng.choice(byte_pool())
     w, w2 = word(rng), word(rng)
     k = rng.randrange(12)
     if k == 0:
@@ -143,7 +185,7 @@ def account_ok(t):
         return False
     if t.startswith(':') or t.endswith(':') or '::' in t:
         return False
-    if any(len(c.encode()) > 200 for c in t.split(':')):
+    if any(len(u8(c)) > 200 for c in t.split(':')):
         return False
     return True
 
@@ -296,12 +338,24 @@ def fmt_amount(comm, cents, decimals):
     return num + (' ' if sep else '') + sym
 
 
-def gen_journal(rng, idx):
+def gen_journal(rng, idx, mode='letters'):
     """-> list of Xact (abstract), the query word or None"""
+    TEXT_MODE[0] = mode
+    try:
+        return gen_journal_1(rng, idx, mode)
+    finally:
+        TEXT_MODE[0] = 'letters'
+
+
+def gen_journal_1(rng, idx, mode):
     comms = rng.sample(COMMS, rng.choice([1, 2, 2, 3]))
+    if mode != 'letters' and rng.random() < 0.4:
+        comms[rng.randrange(len(comms))] = rng.choice(COMMS_CTL if mode == 'ctl' else COMMS_RAW)
     decs = {c[0]: rng.choice([0, 2, 2, 3]) for c in comms}
     r = rng.random()
     qword = 'Zq' if r < 0.25 else 'Nomatch' if r < 0.28 else None      # Nomatch: an empty report
+    if mode == 'raw':
+        qword = None       # an account mask is matched as UTF-8: an account name with other bytes is an error
     acct_pool = []
     for _ in range(rng.choice([2, 3, 4])):
         a = gen_field(rng, account_ok)
@@ -637,7 +691,7 @@ def qty_string(cents, dec):
     return ('-' if neg else '') + s
 
 
-FLAGS = {(c[0] or ''): c[3] for c in COMMS}
+FLAGS = {(c[0] or ''): c[3] for c in COMMS + COMMS_CTL + COMMS_RAW}
 FLAGS[''] = 'P'      # the null commodity is not COMMODITY_STYLE_SUFFIXED
 
 
@@ -649,7 +703,7 @@ def ymd_opt(days):
     return [] if days is None else [list(civil(days))]
 
 
-def build_case(jid, path, fmt, xs, shown, rows, aux=False):
+def build_case(jid, path, fmt, xs, shown, rows, aux=False, all_visited=False):
     """the S-expression handed to the model.  Free-text fields come from the generator, amount
     texts from the register rows (`rows`, one per shown posting)."""
     it = iter(rows)
@@ -679,6 +733,8 @@ def build_case(jid, path, fmt, xs, shown, rows, aux=False):
         y, m, d = x.ymd
         xacts.append([x.line, y, m, d, ymd_opt(x.eff_aux), x.state, opt(x.code), hexs(x.payee), opt(xnote), meta_entries(x, 'all'), ps])
     visited = {p.account for _, posts in shown for p in posts}
+    if all_visited:       # --display filters after calc_posts: every posting (and account) of the journal was visited
+        visited = {p.account for x in xs for p in x.posts}
     for x in xs:
         for p in x.posts:
             accts.append([p.account in visited, hexs(p.account)])
@@ -703,32 +759,42 @@ def text_of(b):
 
 
 def make_journal(ctx, rng, idx, jdir):
-    """generate one journal and write it; the commands run later (in parallel)"""
-    xs, qword = gen_journal(rng, idx)
+    """generate one journal and write it; the commands run later (in parallel); three in four draw
+    their texts from printable punctuation and letters, one in eight also from control bytes and
+    non-letter code points, one in eight from control bytes and bytes outside UTF-8"""
+    mode = {6: 'ctl', 7: 'raw'}.get(idx % 8, 'letters')
+    xs, qword = gen_journal(rng, idx, mode)
     fname = 'j%d.dat' % idx if rng.random() < 0.7 else rng.choice(['q"%d.dat', 'b\\%d.dat', 'é<&%d.dat']) % idx
     fmt, fkind = gen_format(rng)
-    return make_record(xs, qword, fmt, fkind, 'j%d' % idx, os.path.join(jdir, fname), rng.random() < 0.4)
+    aux = rng.random() < 0.4
+    # report options that filter or regroup AFTER the postings were calculated (same options for
+    # every command of the journal): --display PREDICATE in place of the account query; --group-by payee
+    r = rng.random()
+    opt = 'display' if (qword == 'Zq' and r < 0.3) else 'group' if r > 0.93 else None
+    return make_record(xs, qword, fmt, fkind, 'j%d' % idx, os.path.join(jdir, fname), aux, opt)
 
 
-def make_record(xs, qword, fmt, fkind, jid, path, aux=False):
+def make_record(xs, qword, fmt, fkind, jid, path, aux=False, opt=None):
     jtext = render(xs)
     with open(path, 'wb') as f:
-        f.write(jtext.encode('utf-8'))
+        f.write(u8(jtext))
     query = [qword] if qword else []
+    if opt == 'display':
+        query = ['--display', 'account =~ /%s/' % qword]
     if qword:
         shown = [(x, [p for p in x.posts if qword.lower() in p.account.lower()]) for x in xs]
         shown = [(x, ps) for x, ps in shown if ps]
     else:
         shown = [(x, list(x.posts)) for x in xs]
     return dict(id=jid, journal=jtext, path=path, query=query, qword=qword, fmt=fmt, fkind=fkind, xs=xs,
-                shown=shown, outs=None, aux=aux)
+                shown=shown, outs=None, aux=aux, opt=opt)
 
 
 def shrink(rec, key):
     """drop transactions (then postings' notes) while the oracle still reports `key`; -> the
     violation on the smallest journal found"""
     def judge(xs):
-        r = run_commands(make_record(xs, rec['qword'], rec['fmt'], rec['fkind'], rec['id'], rec['path'], rec['aux']))
+        r = run_commands(make_record(xs, rec['qword'], rec['fmt'], rec['fkind'], rec['id'], rec['path'], rec['aux'], rec['opt']))
         tmp = lib.Result()
         rows = check_journal_fields(r, tmp)
         if rows is None:
@@ -753,21 +819,27 @@ def shrink(rec, key):
     return best
 
 
-def commands(path, fmt_string, query, aux=False):
+def commands(path, fmt_string, query, aux=False, opt=None):
     """every report of one journal runs with the same query and the same --aux-date setting; `reg2`
-    is the register with the OTHER setting (the xml output carries both dates)"""
+    is the register with the OTHER setting (the xml output carries both dates).  Under opt='group'
+    the emacs report runs with --group-by payee (the register and csv print a title line per group
+    then; they run without the option and are compared as multisets of postings)"""
     flag = ['--aux-date'] if aux else []
     other = [] if aux else ['--aux-date']
-    return (('reg', ['-f', path, 'reg', '--format', REG_FORMAT] + flag + query),
+    grp = ['--group-by', 'payee'] if opt == 'group' else []
+    extra = ()
+    if opt == 'display':     # the register of the whole journal: amount texts of the postings --display hides
+        extra = (('regall', ['-f', path, 'reg', '--format', REG_FORMAT] + flag),)
+    return extra + (('reg', ['-f', path, 'reg', '--format', REG_FORMAT] + flag + query),
             ('reg2', ['-f', path, 'reg', '--format', '%(date)' + ROWEND + '\\n'] + other + query),
             ('csvd', ['-f', path, 'csv'] + flag + query),
             ('csv', ['-f', path, 'csv', '--csv-format', fmt_string] + flag + query),
-            ('emacs', ['-f', path, 'emacs'] + flag + query),
+            ('emacs', ['-f', path, 'emacs'] + flag + grp + query),
             ('xml', ['-f', path, 'xml'] + flag + query))
 
 
 def run_commands(rec):
-    rec['outs'] = {name: lib.run_ledger(args) for name, args in commands(rec['path'], csv_format_string(rec['fmt']), rec['query'], rec['aux'])}
+    rec['outs'] = {name: lib.run_ledger(args) for name, args in commands(rec['path'], csv_format_string(rec['fmt']), rec['query'], rec['aux'], rec['opt'])}
     try:
         os.unlink(rec['path'])
     except OSError:
@@ -777,7 +849,7 @@ def run_commands(rec):
 
 def case_of(rec):
     return dict(journal=rec['journal'], file=os.path.basename(rec['path']), query=rec['query'],
-                csv_format=csv_format_string(rec['fmt']), aux_date=rec['aux'])
+                csv_format=csv_format_string(rec['fmt']), aux_date=rec['aux'], option=rec['opt'])
 
 
 def check_journal_fields(rec, res):
@@ -794,7 +866,8 @@ def check_journal_fields(rec, res):
         for p in posts:
             xnote = '\n'.join(x.notes)
             pnote = '\n'.join(p.notes)
-            want.append(dict(payee=x.payee, code=x.code or '', account=p.account, note=pnote + xnote))
+            # (two lone bytes side by side may form a UTF-8 sequence: compare what the bytes decode to)
+            want.append({k: text_of(u8(v)) for k, v in dict(payee=x.payee, code=x.code or '', account=p.account, note=pnote + xnote).items()})
     got = None if rows is None else [dict(payee=r['xact.payee'], code=r['code'], account=r['account'], note=r['note']) for r in rows]
     if got != want:
         res.disagreements.append(dict(name='C18/journal-fields', case=case, impl=str(got)[:1500], model=str(want)[:1500]))
@@ -895,7 +968,13 @@ def oracle(rec, rows, res):
                                  commodity=r['commodity(scrub(display_amount))'], quantity=r['quantity(scrub(display_amount))'],
                                  xnote='\n'.join(x.notes), pnote='\n'.join(p.notes)))
         if len(got) != len(want):
-            viol('xml:row-count-differs', 'the xml output has %d postings, the register %d' % (len(got), len(want)), got, want)
+            n_all = sum(len(x.posts) for x, _ in rec['shown'])
+            if rec['opt'] == 'display' and len(got) == n_all:
+                viol('xml:row-count-differs:display-filter-ignored',
+                     'under --display the xml output lists every posting of each transaction that has a displayed posting (%d), the register (csv, emacs) only the displayed ones (%d)' % (len(got), len(want)),
+                     [g['account'] for g in got], [w['account'] for w in want])
+            else:
+                viol('xml:row-count-differs', 'the xml output has %d postings, the register %d' % (len(got), len(want)), got, want)
         else:
             seen = set()
             k = 0
@@ -956,19 +1035,48 @@ def oracle(rec, rows, res):
             if csv_rows(text, 'bs') != want_l1 and csv_rows(text, 'rfc') != want_l1:
                 viol('csv-default:no-dialect-recovers', 'default csv output: no single conventional dialect recovers every row of this report',
                      text[:600], want_rows)
+    # "recovers the original field values": the note column against the note as the journal has
+    # it (the register's plain %(note), which check_journal_fields ties to the generated text: the
+    # posting's note followed by the transaction's), a line break inside it written as the two
+    # characters \n - evaluated here, not by asking ledger's join()
+    orig_l1 = [w[:7] + [r['note'].replace('\n', '\\n').encode('utf-8', 'surrogateescape').decode('latin-1')]
+               for w, r in zip(want_l1, rows)]
+    if len(lines) == len(orig_l1):
+        for ln, w in zip(lines, orig_l1):
+            recovered = [g for g in (csv_rows(ln + '\n', 'bs'), csv_rows(ln + '\n', 'rfc')) if g is not None and len(g) == 1 and len(g[0]) == len(w)]
+            if not recovered or any(g == [w] for g in recovered):
+                continue
+            col = [i for i in range(len(w)) if recovered[0][0][i] != w[i]][0]
+            viol('csv-default:%s-not-the-journal-text' % CSV_ORDER[col],
+                 'default csv output: the %s a csv reader recovers from this row is not the text the journal (and the register) has' % CSV_ORDER[col],
+                 dict(row=ln.encode('latin-1').decode('utf-8', 'replace'), recovered=recovered[0][0][col].encode('latin-1').decode('utf-8', 'replace')),
+                 w[col].encode('latin-1').decode('utf-8', 'replace'))
+            break
     if rec['fkind'] == 'all-rfc':
         t2 = outs['csv'][1].decode('latin-1')
         got = csv_rows(t2, 'rfc')
         if got != want_l1:
             viol('csv-rfc:not-recovered', 'csv written with quoted_rfc() is not recovered by an RFC 4180 reader', t2[:600], want_rows)
+        if got is not None and got != orig_l1 and len(got) == len(orig_l1) and all(len(g) == 8 for g in got):
+            col = [i for g, w in zip(got, orig_l1) for i in range(8) if g[i] != w[i]][0]
+            viol('csv-rfc:%s-not-the-journal-text' % CSV_ORDER[col],
+                 'csv written with quoted_rfc(): the %s an RFC 4180 reader recovers is not the text the journal (and the register) has' % CSV_ORDER[col],
+                 t2[:600], [w[col].encode('latin-1').decode('utf-8', 'replace') for w in orig_l1])
 
     # ---- emacs: one balanced, readable S-expression carrying the register's values
     etext = text_of(outs['emacs'][1])
     try:
         forms = sexp_read(etext)
     except Unreadable as e:
-        viol('emacs:unreadable', 'emacs output is not a readable S-expression: %s' % e, etext[:600], 'balanced, readable')
+        groups = {r['payee'] for r in rows}
+        if rec['opt'] == 'group' and len(groups) >= 2:
+            viol('emacs:unreadable:group-by-two-groups', 'emacs --group-by payee with %d groups is not a readable S-expression: %s' % (len(groups), e),
+                 etext[:600], 'balanced, readable')
+        else:
+            viol('emacs:unreadable', 'emacs output is not a readable S-expression: %s' % e, etext[:600], 'balanced, readable')
         forms = None
+    if forms is not None and rec['opt'] == 'group' and forms and all(isinstance(f, list) for f in forms):
+        forms = [[xf for f in forms for xf in f]]        # one list per group: the transactions of all groups
     if forms is not None:
         if not rows:
             if forms:
@@ -1017,6 +1125,10 @@ def oracle(rec, rows, res):
             elif len(got) != len(want):
                 viol('emacs:row-count-differs', 'the emacs output has %d postings, the register %d' % (len(got), len(want)), got, want)
             else:
+                if rec['opt'] == 'group':
+                    # the groups come in the order of their payees: compare posting by posting, matched by line number
+                    order = {w['line']: i for i, w in enumerate(want)}
+                    got = sorted(got, key=lambda g: order.get(g['line'], -1))
                 seen = set()
                 for g, w, hp, (own, xd) in zip(got, want, header_payees, date_info):
                     d = [f for f in w if g[f] != w[f]]
@@ -1068,18 +1180,44 @@ def run(ctx, n_override=None):
         if rows is None:
             continue
         live.append(rec)
-        lines.append(build_case(rec['id'], rec['path'], rec['fmt'], rec['xs'], rec['shown'], rows, rec['aux']))
+        lines.append(build_case(rec['id'], rec['path'], rec['fmt'], rec['xs'], rec['shown'], rows, rec['aux'], rec['opt'] == 'display'))
         # reader specifications against python's readers, on ledger's real output
         outs = rec['outs']
         for what, name in (('rfc', 'csvd'), ('bs', 'csvd'), ('rfc', 'csv'), ('lisp', 'emacs'), ('xmltags', 'xml')):
             if what == 'rfc' and name == 'csv' and rec['fkind'] != 'all-rfc':
                 continue
+            if what == 'xmltags' and not in_quantifier(rec['journal'].replace('\n', '')):
+                continue      # expat reads XML 1.0 in UTF-8: it rejects control bytes and bytes outside UTF-8, which boost writes raw
             data = outs[name][1]
             if what == 'xmltags':
                 data = data.split(b'\n', 1)[1] if data.startswith(b'<?xml') else data    # without the declaration
             reader_lines.append(lib.sx(['read', what, rec['id'], data]))
             reader_meta.append((rec, what, name, data))
-    out = lib.run_model('C18', lines + reader_lines)
+    # --display: format_ptree::flush walks xact->posts by POST_EXT_VISITED, which calc_posts sets BEFORE the
+    # display filter - the model's xml_transactions is given the postings the code walks (all of them, for
+    # each transaction with a displayed posting)
+    # which of the two the current source does is a fact regenerated from ptree.cc (Gen/XmlWalk.v,
+    # theorem xml_walk_faithful); the model says it (xml_walk_name: v = visited, d = displayed)
+    walk = (lib.run_model('C18', [lib.sx(['xmlwalk', 'w'])]) + [''])[0]
+    walk = {'w xmlwalk 76': 'visited', 'w xmlwalk 64': 'displayed'}.get(walk, 'unrecognised')
+    res.count('xml posting walk of the source: ' + walk)
+    if walk == 'unrecognised':
+        res.disagreements.append(dict(name='C18/xml-walk-unrecognised', case={}, impl='ptree.cc format_ptree::flush / operator()', model='Gen/XmlWalk.v: WalkUnrecognised'))
+    extra_lines, extra_recs = [], []
+    for rec in live:
+        if rec['opt'] != 'display' or walk != 'visited':
+            continue
+        allrows = parse_register(rec['outs']['regall'][1])
+        walked = [(x, list(x.posts)) for x, _ in rec['shown']]
+        keep = {id(x) for x, _ in rec['shown']}
+        if allrows is None or len(allrows) != sum(len(x.posts) for x in rec['xs']):
+            res.disagreements.append(dict(name='C18/journal-fields', case=case_of(rec), impl='register of the whole journal: %s rows' % (None if allrows is None else len(allrows)), model='one row per posting'))
+            continue
+        it = iter(allrows)
+        sel = [r for x in rec['xs'] for p in x.posts for r in [next(it)] if id(x) in keep]
+        extra_lines.append(build_case(rec['id'] + 'x', rec['path'], rec['fmt'], rec['xs'], walked, sel, rec['aux'], True))
+        extra_recs.append(rec)
+    out = lib.run_model('C18', lines + extra_lines + reader_lines)
     model = {}
     pos = 0
     for rec in live:
@@ -1092,6 +1230,12 @@ def run(ctx, n_override=None):
             else:
                 d['error'] = out[pos - 1]
         model[rec['id']] = d
+    for rec in extra_recs:
+        for _ in range(6):
+            parts = out[pos].split(' ')
+            pos += 1
+            if len(parts) == 3 and parts[0] == rec['id'] + 'x' and parts[1] == 'xmlt':
+                model[rec['id']]['xmlt'] = b'' if parts[2] == '-' else bytes.fromhex(parts[2])
     for rec in live:
         case = case_of(rec)
         outs = rec['outs']
@@ -1101,11 +1245,29 @@ def run(ctx, n_override=None):
                     xmlt=(xt or '').encode('utf-8', 'surrogateescape'), xmla=(xa or '').encode('utf-8', 'surrogateescape'),
                     xmlc=(xc or '').encode('utf-8', 'surrogateescape'))
         res.traces += 1
+        if rec['opt']:
+            res.count('option:' + {'display': '--display PREDICATE', 'group': '--group-by payee (emacs: oracle only)'}[rec['opt']])
         for k in ('csvd', 'csv', 'emacs', 'xmlt', 'xmla', 'xmlc'):
+            if k == 'emacs' and rec['opt'] == 'group':
+                continue      # the emacs writer across groups is not modelled (finding F1802); the oracle judges it
             if m.get(k) != impl[k]:
                 res.disagreements.append(dict(name='C18/' + k, case=case, impl=text_of(impl[k])[:1500],
                                               model=text_of(m[k])[:1500] if k in m else m.get('error')))
-        oracle(rec, rec['rows'], res)
+        # the oracle speaks for the journals of the property's quantifier (printable characters); a
+        # journal with control bytes, non-letter code points or bytes outside UTF-8 is compared with
+        # the model only (boost writes such bytes raw: not well-formed XML 1.0)
+        inq = in_quantifier(rec['journal'].replace('\n', ''))
+        if inq:
+            oracle(rec, rec['rows'], res)
+        else:
+            res.count('journal-outside-quantifier (correspondence only)')
+        jt = rec['journal']
+        if any(c in jt for c in CTL):
+            res.count('journal-with:control-byte')
+        if any(c in jt for c in NONLETTER):
+            res.count('journal-with:non-letter-code-point')
+        if any(c in jt for c in RAW):
+            res.count('journal-with:byte-outside-utf8')
         texts = []
         for x, posts in rec['shown']:
             texts += [x.payee, x.code or ''] + x.notes
@@ -1225,7 +1387,7 @@ def replay(ctx, obj):
         f.write(case['journal'].encode('utf-8', 'surrogateescape'))
     q = case.get('query') or []
     cmd = case.get('command', 'csvd')
-    args = dict(commands(path, case.get('csv_format', ''), q, case.get('aux_date', False)))[cmd]
+    args = dict(commands(path, case.get('csv_format', ''), q, case.get('aux_date', False), case.get('option')))[cmd]
     st, out, err = lib.run_ledger(args)
     st2, reg, _ = lib.run_ledger(['-f', path, 'reg', '--format', '%(date)|%(code)|%(payee)|%(display_account)|%(join(note | xact.note))\\n'] + q)
     print('replay: ledger %s' % ' '.join(args[2:]))
